@@ -3,6 +3,8 @@ package variablesvalidation
 import (
 	"bytes"
 	"fmt"
+	"math"
+	"strconv"
 
 	"github.com/wundergraph/astjson"
 
@@ -64,6 +66,20 @@ func (v *variablesVisitor) newInvalidVariableError(message string) *InvalidVaria
 		err.ExtensionCode = errorcodes.BadUserInput
 	}
 	return err
+}
+
+// numberIsInteger reports whether a JSON number denotes an integer (1, 1.0 and 1e2 do,
+// 1.5 does not) and, if int32Range is set, lies in the GraphQL Int range.
+func numberIsInteger(value *astjson.Value, int32Range bool) bool {
+	raw := value.MarshalTo(nil)
+	if n, err := strconv.ParseInt(string(raw), 10, 64); err == nil {
+		return !int32Range || (n >= math.MinInt32 && n <= math.MaxInt32)
+	}
+	f, err := strconv.ParseFloat(string(raw), 64)
+	if err != nil || math.IsInf(f, 0) || f != math.Trunc(f) {
+		return false
+	}
+	return !int32Range || (f >= math.MinInt32 && f <= math.MaxInt32)
 }
 
 type VariablesValidator struct {
@@ -486,7 +502,7 @@ func (v *variablesVisitor) traverseNamedTypeNode(jsonValue *astjson.Value, typeN
 				return
 			}
 		case "Int":
-			if jsonValue.Type() != astjson.TypeNumber {
+			if jsonValue.Type() != astjson.TypeNumber || !numberIsInteger(jsonValue, true) {
 				v.renderVariableInvalidNestedTypeError(jsonValue, fieldTypeDefinitionNode.Kind, typeName, false)
 				return
 			}
@@ -501,7 +517,7 @@ func (v *variablesVisitor) traverseNamedTypeNode(jsonValue *astjson.Value, typeN
 				return
 			}
 		case "ID":
-			if jsonValue.Type() != astjson.TypeString && jsonValue.Type() != astjson.TypeNumber {
+			if jsonValue.Type() != astjson.TypeString && (jsonValue.Type() != astjson.TypeNumber || !numberIsInteger(jsonValue, false)) {
 				v.renderVariableInvalidNestedTypeError(jsonValue, fieldTypeDefinitionNode.Kind, typeName, false)
 				return
 			}
